@@ -55,7 +55,7 @@ class Crate:
         self.package = package
         self.features = features
         self.stubbing = stubbing
-        self.target_dir = os.path.join(BUILD, "kani_" + name)
+        self.target_dir = os.path.join(BUILD, "kani_" + name + ("" if REPO == "/repo" else "_alt"))
 
     def kani_env(self):
         e = dict(ENV)
@@ -81,6 +81,14 @@ class Crate:
 
     def prepare(self):
         if not self.incrate:
+            # Cargo.toml is generated from Cargo.toml.in so that the checks can also be pointed at a
+            # scratch worktree (VERIF_REPO=<dir>); by default the path dependencies are /repo/<crate>
+            tin = os.path.join(self.path, "Cargo.toml.in")
+            if os.path.exists(tin):
+                text = open(tin).read().replace("@REPO@", REPO)
+                tp = os.path.join(self.path, "Cargo.toml")
+                if not os.path.exists(tp) or open(tp).read() != text:
+                    open(tp, "w").write(text)
             shutil.copyfile(os.path.join(REPO, "Cargo.lock"), os.path.join(self.path, "Cargo.lock"))
 
     def build(self, log):
@@ -168,7 +176,7 @@ def parse_playback(out):
     return items
 
 
-def run_many(jobs, workers, log):
+def run_many(jobs, workers, log, playback=False):
     """jobs: list of (crate, harness, timeout_s, mem_gb, outdir). Returns results in order."""
     import queue
     results = [None] * len(jobs)
@@ -179,7 +187,7 @@ def run_many(jobs, workers, log):
     def one(j):
         s = slots.get()
         try:
-            return run_harness(*j, slot=s)
+            return run_harness(*j, playback=playback, slot=s)
         finally:
             slots.put(s)
 
